@@ -166,9 +166,22 @@ class Normaliser(object):
         self.env = env or {}
         self.rename = rename or {}
         self.const_names = const_names or {}
+        self.stacks = {}
 
     def poly(self, e):
         e = _strip_broadcast(e)
+        # element k of a stack written out: np.stack([e0, e1, ...])[k] (also through a broadcasting subscript that keeps axis 0) is e_k
+        if isinstance(e, ast.Subscript) and isinstance(e.slice, ast.Constant) and isinstance(e.slice.value, int) and not isinstance(e.slice.value, bool):
+            base = e.value
+            if isinstance(base, ast.Name) and base.id in self.stacks:
+                elts = self.stacks[base.id]
+                if -len(elts) <= e.slice.value < len(elts):
+                    return self.poly(elts[e.slice.value])
+            base = _strip_broadcast(base)
+            if isinstance(base, ast.Call) and ast.unparse(base.func) in ("np.stack", "numpy.stack", "np.array", "numpy.array", "np.vstack", "numpy.vstack") \
+                    and len(base.args) == 1 and not base.keywords and isinstance(base.args[0], (ast.List, ast.Tuple)) and \
+                    -len(base.args[0].elts) <= e.slice.value < len(base.args[0].elts):
+                return self.poly(base.args[0].elts[e.slice.value])
         if isinstance(e, ast.Constant):
             if isinstance(e.value, bool) or not isinstance(e.value, (int, float)):
                 return Poly.atom(repr(e.value))
